@@ -43,7 +43,7 @@ def gen_case(rng, small=True, kind=None, stratum=None):
     n_ids = rng.choice([1, 2, 3])
     n_obs = rng.choice([1, 1, 2])
     n_times = rng.choice([1, 2, 3, 3])
-    if stratum in ('single-sorted-uneven', 'composed-rotation'):
+    if stratum in ('single-sorted-uneven', 'composed-rotation', 'nested'):
         n_times, n_ids = 3, 3
     val = lambda: core.dyadic(rng, 3, 60, 8)
     obs = [[[val() for _ in range(n_times)] for _ in range(n_obs)] for _ in range(n_ids)]
@@ -74,14 +74,30 @@ def gen_case(rng, small=True, kind=None, stratum=None):
         k, composed, order = 1, False, rng.choice([[1, 2, 0], [2, 0, 1], [2, 1, 0], [1, 0, 2]])
     elif stratum == 'composed-rotation':
         k, composed, order = rng.choice([1, 2, 3]), True, rng.choice([[1, 2, 0], [2, 0, 1]])
+    elif stratum == 'nested':
+        k, composed, order = rng.choice([1, 2, 2]), True, rng.choice([[1, 2, 0], [2, 0, 1], [0, 1, 2], [1, 0, 2]])
     cuts = sorted(rng.sample(range(1, n_times), k - 1)) if k > 1 else []
-    return {'kind': kind, 'obs': obs, 'sim': sim, 'cuts': cuts, 'order': order, 'composed': composed}
+    # a composition inside the composition, with a time order of its own (set before it is nested)
+    inner = None
+    if composed and (stratum == 'nested' or rng.random() < 0.25):
+        a = rng.randrange(k)
+        b = rng.randint(a + 1, k)
+        bounds = [0] + cuts + [n_times]
+        if stratum == 'nested':         # the widest group
+            a, b = max(((x, y) for x in range(k) for y in range(x + 1, k + 1)), key=lambda ab: bounds[ab[1]] - bounds[ab[0]] - 0.1 * (ab[1] - ab[0]))
+        w = bounds[b] - bounds[a]
+        io = list(range(w))
+        rng.shuffle(io)
+        if w > 1 and io == sorted(io):
+            io = io[1:] + io[:1]
+        inner = {'a': a, 'b': b, 'order': io}
+    return {'kind': kind, 'obs': obs, 'sim': sim, 'cuts': cuts, 'order': order, 'composed': composed, 'inner': inner}
 
 
 def gen_suite(rng, n_random):
     cases = []
     for kind in KINDS:
-        for stratum in ('single-sorted-uneven', 'composed-rotation'):
+        for stratum in ('single-sorted-uneven', 'composed-rotation', 'nested'):
             cases.append(gen_case(rng, kind=kind, stratum=stratum))
     for _ in range(n_random):
         cases.append(gen_case(rng))
@@ -100,6 +116,20 @@ def build(case, obs=None):
         return f
     bounds = [0] + case['cuts'] + [n_times]
     subs = [make_filter(case['kind'], obs[:, :, a:b]) for a, b in zip(bounds, bounds[1:])]
+    inner = case.get('inner')
+    if inner:
+        # `obs` are the columns as the inner composition presents them AFTER its own sort_times(order): it is built
+        # from the columns in the un-sorted arrangement and sorted before it is nested
+        a, b = inner['a'], inner['b']
+        raw = obs[:, :, bounds[a]:bounds[b]][..., np.argsort(inner['order'])]
+        parts, c = [], 0
+        for k in range(a, b):
+            w = bounds[k + 1] - bounds[k]
+            parts.append(make_filter(case['kind'], raw[:, :, c:c + w]))
+            c += w
+        g = chi.ComposedPopulationFilter(parts)
+        g.sort_times(np.array(inner['order']))
+        subs[a:b] = [g]
     f = chi.ComposedPopulationFilter(subs)
     f.sort_times(np.array(case['order']))
     return f
